@@ -295,6 +295,38 @@ func c13Assert(w *World, r *Result) {
 
 // reviewed index sites: function -> reason (applies to the index expressions of
 // that function that are not discharged automatically).
+// reviewedCount: how many unguarded index expressions of each reviewed function the review covered.
+var reviewedCount = map[string]int{
+	"bash/converter.mustCurrentForVar":            1,
+	"bash/converter.varAssignmentString":          1,
+	"batch/converter.ForEnd":                      1,
+	"batch/converter.addLine":                     2,
+	"batch/converter.mustCurrentEndLabel":         1,
+	"batch/converter.mustCurrentForLabel":         1,
+	"batch/converter.mustCurrentFuncInfo":         1,
+	"batch/converter.mustCurrentIfInfo":           1,
+	"lexer/Tokenize":                              5,
+	"main/main":                                   1,
+	"main/parseOptions":                           3,
+	"parser/Parser.evaluateArguments":             1,
+	"parser/Parser.evaluateCompoundAssignment":    4,
+	"parser/Parser.evaluateExists$1":              1,
+	"parser/Parser.evaluateFunctionDefinition$2":  1,
+	"parser/Parser.evaluateItoa$1":                1,
+	"parser/Parser.evaluateLen$1":                 1,
+	"parser/Parser.evaluatePanic$1":               1,
+	"parser/Parser.evaluateRead$1":                1,
+	"parser/Parser.evaluateVarDefinition":         1,
+	"parser/Parser.evaluateWrite$1":               2,
+	"parser/Parser.parse":                         1,
+	"parser/context.currentScope":                 1,
+	"parser/isPublic":                             1,
+	"parser/scopesToString":                       1,
+	"transpiler/transpiler.evaluateIf":            1,
+	"transpiler/transpiler.evaluateVarAssignment": 1,
+	"transpiler/transpiler.evaluateVarDefinition": 1,
+}
+
 var reviewedIndex = map[string]string{
 	"context.currentScope":                           "every caller lies below the block routine that pushes a scope before parsing statements (call-graph dominance)",
 	"Parser.evaluateVarDefinition":                   "name list comes from the do-while name reader (≥ 1 element); type/value lists were length-checked against it",
@@ -355,6 +387,12 @@ func c13Index(w *World, r *Result) {
 							continue
 						}
 						base, index, pos, kind = x.X, x.Index, x.Pos(), "index"
+					case *ssa.Lookup:
+						// s[i] on a string (map lookups never panic)
+						if !isString(x.X.Type()) {
+							continue
+						}
+						base, index, pos, kind = x.X, x.Index, x.Pos(), "index"
 					case *ssa.Slice:
 						if _, isArr := x.X.Type().Underlying().(*types.Pointer); isArr {
 							continue
@@ -389,13 +427,23 @@ func c13Index(w *World, r *Result) {
 				name = "transpiler." + fn.Name()
 			}
 			key := "index:" + FuncName(fn) + ":reviewed"
-			if reason, ok := reviewedIndex[name]; ok {
+			if os.Getenv("VERIF_DEBUG") == "counts" {
+				fmt.Printf("REVIEWCOUNT\t%q: %d,\n", role+"/"+name, und)
+			}
+			reviewedOK := func(reason string) {
+				if max, ok := reviewedCount[role+"/"+name]; !ok || und > max {
+					r.Bad(rule, key, w.Pos(firstPos), fmt.Sprintf("%d index / slice expression(s) of %s have no guard, but the review (\"%s\") covered %d: a new unguarded index was added", und, name, reason, max))
+					return
+				}
 				r.Triv(rule, key, w.Pos(firstPos), fmt.Sprintf("%d index expression(s) justified by review: %s", und, reason))
+			}
+			if reason, ok := reviewedIndex[name]; ok {
+				reviewedOK(reason)
 				continue
 			}
 			if role == "bash" || role == "batch" {
 				if reason, ok := reviewedIndex[FuncName(fn)]; ok {
-					r.Triv(rule, key, w.Pos(firstPos), fmt.Sprintf("%d index expression(s) justified by review: %s", und, reason))
+					reviewedOK(reason)
 					continue
 				}
 				c13StackAccessor(w, r, role, fn, und, firstPos)
